@@ -28,20 +28,26 @@ ASSUMPTIONS = ["knot vectors are clamped and normalised to [0,1] (geomdl's defau
                "floating point rounding below 1e-9 is not observable; float32 rounding of binary STL below 1e-6",
                "generic trims have vertices off every grid line (odd multiples of 1/256 plus a random 30-bit dyadic offset), so that no float predicate is evaluated at an exact tie",
                "the sample size a container passes to its surfaces is observed from the surfaces (the container/surface delta convention mismatch belongs to C12/C17)"]
-THEOREM_NOTES = "see coq/Props/C15.v; [F] = the property's own finite range 2..40 x 2..40 exhausted by vm_compute, [G] = all sizes"
-LEVEL_TEXT = ("Coq theorems about the executable Gallina model coq/Model/Tess.v (REPAIRED behaviour, fixes/C15-*.diff): [F] for ALL vertex-array "
-              "sizes 2..40 x 2..40 (hence all sample sizes 2..40 and all dividing spacings) the boolean validator holds on the model's triangle "
-              "list: ids in range, every directed edge once, interior edges shared by exactly two triangles in opposite directions, boundary "
-              "edges = 2(a-1)+2(b-1), Euler characteristic 1, all triangles counter-clockwise (vm_compute over 1521 configurations, lifted by "
-              "forallb_forall); [G] the generic cell loop with fix_numbering equals the closed form for all sizes >= 2, V = a*b, F = 2(a-1)(b-1), "
-              "vertex ids consecutive; [G] stored uv = (i*k/(su-1), j*k/(sv-1)) = the linspace parameter of the sample (over R); [G] the two "
-              "triangles of a cell partition it (areas add up, shared diagonal, both ccw); [G] export indices of containers are in range and "
-              "offsets are prefix sums, OFF header counts, STL normal = cross product (orthogonal to both edges). PARTIAL: the trimmed "
-              "tessellation is modelled and tied by correspondence; its 'within one cell' claim is checked by the exact oracle, proved only as "
-              "the two cell rules (all four corners inside => omitted; no corner inside and no crossing => two triangles).")
-LEVEL_NOTE = ("Trusted: Coq 8.16.1 kernel incl. vm_compute; standard-library real-number axioms as printed by Print Assumptions (pure nat theorems "
-              "are closed); the model is tied to /repo by the sampled correspondence check; surface evaluation is C01's model (Model/Eval.v); "
-              "str(float)/struct round trips are not modelled.")
+THEOREM_NOTES = ("coq/Props/C15.v: C15_mesh_valid_2_40 [F], C15_tessellation_valid [F]+[G], C15_make_triangle_mesh_closed_form [G], "
+                 "C15_mesh_counts [G], C15_vertex_uv_is_grid_parameter / _is_sample_parameter [G, over R], C15_cell_partition [G, over R], "
+                 "C15_trim_cell_all_inside_partial / C15_trim_cell_no_trims_partial [G, the two cell rules; the full 'within one cell' claim is "
+                 "the Definition C15_trim_within_one_cell_full, not proved], C15_export_obj_indices_in_range, C15_export_off_header_counts, "
+                 "C15_container_ids_in_range, C15_stl_normal_is_cross_product [G], C15_pinned_vertex_array_size_refuted (the defect of the pinned tree)")
+LEVEL_TEXT = ("Coq theorems about the executable Gallina model coq/Model/TessCore.v + Tess.v (REPAIRED behaviour, fixes/C15-*.diff): [F] for ALL vertex-array "
+              "sizes 2..40 x 2..40 (hence all sample sizes 2..40 and all vertex spacings dividing size-1) the boolean validator holds on the model's "
+              "triangle list: ids in range, every directed edge used once (interior edges shared by exactly two triangles in opposite directions), "
+              "boundary edges = 2(a-1)+2(b-1) and on the rectangle boundary, Euler characteristic 1, every vertex used, all triangles "
+              "counter-clockwise (vm_compute over 1521 configurations in four chunks, lifted by forallb_forall); [G] for all sizes the generic cell loop "
+              "with fix_numbering equals the closed form, V = a*b, F = 2(a-1)(b-1), consecutive ids; [G] stored uv = (i*k/(su-1), j*k/(sv-1)) = the "
+              "linspace parameter of the sample (over R) - the position itself is C01's surface evaluation, tied here by correspondence and the exact "
+              "oracle; [G] the two triangles of a cell partition it; [G] OBJ/OFF indices of containers in range (offsets = prefix sums), OFF header "
+              "counts, container vertex ids consecutive, STL normal orthogonal to the facet edges. PARTIAL: trimmed tessellation - only the two cell "
+              "rules are proved (all corners inside => omitted; no trims => untrimmed fan); the 'within one sampling cell' claim, spline trims, "
+              "quads and the writers' text/binary encodings are tied by correspondence and checked by the exact oracle.")
+LEVEL_NOTE = ("Trusted: Coq 8.16.1 kernel incl. vm_compute (mesh_valid is a vm_compute proof); standard-library real-number axioms as printed by Print "
+              "Assumptions (the nat theorems are closed under the global context); the model is tied to /repo by the sampled correspondence check; "
+              "surface evaluation is C01's model (Model/Eval.v); str(float)/struct round trips and file I/O are not modelled; the container/surface "
+              "sample-size convention mismatch (C12/C17) is outside this property: sample sizes are observed from the surfaces.")
 TECHNIQUE = "machine-checked proof in Coq (vm_compute enumeration + induction, ring/field over R) on a Gallina model + vm_compute correspondence with geomdl + exact integer/Fraction mesh validator"
 
 
